@@ -29,6 +29,10 @@ CHECKS = {
             'fifo_stream/async_fifo_stream and the four parmap variants on identical generated inputs, durations, preprocessor failures and flags'),
     'C02': ('exploration', T_SIM + 'reference evaluator of the generated servlet tree; legality rules for TimeoutError/ServerBacklogFull; generated object-identity allocator', SIM_NOTE,
             'generated servlet trees x request histories (failures, fail-fast errors, short timeouts) x concurrent callers and streams x owned schedules'),
+    'C04': ('exploration', T_SIM + 'reference evaluator with generated fault sets; exception class+args+failure-site function name in the traceback text; exact batch-failure sets from the instrumented call log; real-process family for the process boundary', SIM_NOTE,
+            'generated fault subsets/sites/classes x servlet trees x batching x concurrent callers x owned schedules (+ sampled ProcessServlet runs)'),
+    'C09': ('exploration', T_SIM + 'well-formedness predicates over the instrumented Worker.call log, exactly-one-batch membership, exact batch-wait bound in virtual time', SIM_NOTE,
+            'generated arrival patterns x batch_size x batch_wait_time x workers x preprocess outcomes x in-worker thread pool x owned schedules'),
     'C06': ('exploration', T_SIM + 'invariant backlog<=capacity at every scheduling step; exact rejection/waiting rules in virtual time; idle backlog == 0', SIM_NOTE,
             'generated caller scripts (backpressure on/off, short/long timeouts, failures, abandoned streams) x capacity 1-4 x owned schedules'),
     'C07': ('exploration', T_SIM + 'abandoned call = TimeoutError at/after deadline or own reference result; probe requests answered correctly afterwards; gather thread alive; clean exit', SIM_NOTE,
